@@ -132,34 +132,40 @@ Example C13_hals_hypotheses_satisfiable :
 Proof. exact ex_all. Qed.
 
 (* ---------------------------------------------------------------------------------------------- *)
-(*  hals_nnls, cold start (V = None): clip(solve(UtU, UtM), 0) rescaled by sum(UtM*V)/sum(UtU*VV^T)  *)
+(*  hals_nnls, cold start (V = None), repaired code:                                               *)
+(*  V = clip(solve(UtU, UtM), 0); if sum(UtU*VV^T) > 0: V = V * sum(UtM*V)/sum(UtU*VV^T)           *)
 (* ---------------------------------------------------------------------------------------------- *)
-(* REFUTED: "the cold start returns a finite point".  On the positive definite problem UtU = [[2]],
-   UtM = [[-1]] (NNLS optimum 0) with the exact answer -1/2 of tl.solve the model returns the NaN outcome
-   for every budget and tolerance (known finding hals_cold_start_nan) *)
-Theorem C13_hals_cold_start_refuted :
-  exists (UtM UtU sol : list (list R)) (o : @hopts R),
-    wfm 1 1 UtU /\ wfm 1 1 UtM /\ 0 < mget Rops UtU 0 0 /\ solves 1 1 UtU UtM sol /\
-    forall iters tol, hals_nnls Rops UtM UtU 1 None sol iters tol o = Ok None.
-Proof. exact hals_cold_start_refuted. Qed.
-Print Assumptions C13_hals_cold_start_refuted.
+(* for EVERY recorded answer of tl.solve the start has the right shape and the result is an iterate of the pass
+   from it (before /repo 5f3eaf7 this failed with NaN on the class below) *)
+Theorem C13_hals_cold_start : forall (UtM UtU : list (list R)) (r n : nat) (sol : list (list R)) (iters : nat) (tol : R) (o : @hopts R),
+  h_nz o = false -> wfm r n sol ->
+  wfm r n (hals_init Rops UtM UtU n sol) /\ exists m, (m <= iters)%nat /\
+    hals_nnls Rops UtM UtU n None sol iters tol o = Ok (iterl m (hals_pass Rops UtM UtU n o) (hals_init Rops UtM UtU n sol)).
+Proof. exact hals_cold_start. Qed.
+Print Assumptions C13_hals_cold_start.
 
-(* the whole failing class (full, universal): whenever the unconstrained solution has no positive entry *)
-Theorem C13_hals_cold_start_nan_class : forall (UtM UtU : list (list R)) (n : nat) (sol : list (list R)) (iters : nat) (tol : R) (o : @hopts R),
-  h_nz o = false -> Forall (Forall (fun x => x <= 0)) sol ->
-  hals_nnls Rops UtM UtU n None sol iters tol o = Ok None.
-Proof. exact hals_cold_start_nan. Qed.
-Print Assumptions C13_hals_cold_start_nan_class.
+(* with a positive budget and a non-zero diagonal every entry of the cold-start result is >= epsilon
+   (the start itself may be infeasible: the scale can be negative) *)
+Theorem C13_hals_cold_start_ge_eps : forall (UtM UtU : list (list R)) (r n : nat) (sol : list (list R)) (iters : nat) (tol : R) (o : @hopts R),
+  wfm r r UtU -> wfm r n UtM -> h_nz o = false -> wfm r n sol ->
+  (0 < iters)%nat -> (forall k, (k < r)%nat -> Gf UtU k k <> 0) ->
+  exists W, hals_nnls Rops UtM UtU n None sol iters tol o = Ok W /\
+            forall i j, (i < r)%nat -> (j < n)%nat -> h_eps o <= mget Rops W i j.
+Proof. exact hals_cold_start_ge_eps. Qed.
+Print Assumptions C13_hals_cold_start_ge_eps.
 
-(* PARTIAL (hypothesis: the scaling denominator is non-zero, i.e. hals_init is defined): the cold start is a
-   matrix of the right shape and the result is an iterate of the pass from it, so that the theorems (i)-(iv)
-   apply from there (any_start: the start may be infeasible when the scale is negative) *)
-Theorem C13_hals_cold_start_partial : forall (UtM UtU : list (list R)) (r n : nat) (sol V : list (list R)) (iters : nat) (tol : R) (o : @hopts R),
-  h_nz o = false -> wfm r n sol -> hals_init Rops UtM UtU n sol = Some V ->
-  wfm r n V /\ exists m, (m <= iters)%nat /\
-    hals_nnls Rops UtM UtU n None sol iters tol o = Ok (Some (iterl m (hals_pass Rops UtM UtU n o) V)).
-Proof. exact hals_cold_start_defined. Qed.
-Print Assumptions C13_hals_cold_start_partial.
+(* the former NaN class: no positive entry in the unconstrained solution => the start is the clipped solution,
+   identically zero (a feasible start) *)
+Theorem C13_hals_cold_start_zero_class : forall (UtM UtU : list (list R)) (n : nat) (sol : list (list R)),
+  Forall (Forall (fun x => x <= 0)) sol ->
+  hals_init Rops UtM UtU n sol = mmap (fmax Rops (f0 Rops)) sol /\
+  Forall (Forall (fun x => x = 0)) (hals_init Rops UtM UtU n sol).
+Proof. exact hals_init_zero_class. Qed.
+Print Assumptions C13_hals_cold_start_zero_class.
+
+(* non-vacuity / regression: the former NaN witness UtU = [[2]], UtM = [[-1]] (answer of solve -1/2, NNLS optimum 0) *)
+Example C13_hals_cold_start_witness : hals_init Rops [[-1]] [[2]] 1 [[-1/2]] = [[0]].
+Proof. exact hals_cold_start_witness_zero. Qed.
 
 (* ---------------------------------------------------------------------------------------------- *)
 (*  fista (non_negative = True)                                                                    *)
@@ -212,18 +218,15 @@ Print Assumptions C13_fista_fixed_point_optimal.
 (* ---------------------------------------------------------------------------------------------- *)
 (*  active_set_nnls                                                                                *)
 (* ---------------------------------------------------------------------------------------------- *)
-(* REFUTED: "the returned point is KKT under rounding of the interpolation step".  The step x + alpha (s - x)
-   is modelled with a rounding function rnd; with |rnd x - x| <= 2^-60 (the blocking coordinate, exactly 0, is
-   left at 2^-60) the algorithm returns (0, 0) on UtU = [[1,-1],[-1,4]], Utm = (-6, 1), x0 = (3, 1), where
-   Utm - UtU x = (-6, 1) has a positive entry on the bound; with rnd = identity it returns the optimum
-   (0, 1/4).  The float64 implementation returns (0, 0) on this input (known finding active_set_step_rounding).
-   Executed at the rational instance of the model. *)
-Theorem C13_active_set_rounding_refuted :
+(* regression of the former rounding defect (before /repo dadc3ff): the interpolation step x + alpha (s - x) is
+   modelled with a rounding function rnd; with |rnd x - x| <= 2^-60 leaving the blocking coordinate (exactly 0) at
+   2^-60 the old code returned the non-KKT point (0, 0) on UtU = [[1,-1],[-1,4]], Utm = (-6, 1), x0 = (3, 1); the
+   repaired step puts the coordinates attaining alpha exactly on the bound and the perturbed run returns the
+   optimum (0, 1/4), like the unperturbed one.  A witness, not a universal theorem; executed at the rational instance. *)
+Example C13_active_set_rounding_regression :
   exists (rnd : Q -> Q) (Utm : list Q) (UtU : list (list Q)) (x0 : list Q) (tol : Q),
   (forall x, (Qabs (rnd x - x) <= 1 # 1152921504606846976)%Q) /\
   active_set_nnls Qops (gauss_solve Qops) (fun x => x) Utm UtU tol (Some x0) 100 = Some [0; 1 # 4]%Q /\
-  active_set_nnls Qops (gauss_solve Qops) rnd Utm UtU tol (Some x0) 100 = Some [0; 0]%Q /\
-  gradient Qops Utm UtU [0; 0]%Q = [-6; 1]%Q /\
+  active_set_nnls Qops (gauss_solve Qops) rnd Utm UtU tol (Some x0) 100 = Some [0; 1 # 4]%Q /\
   gradient Qops Utm UtU [0; 1 # 4]%Q = [-23 # 4; 0]%Q.
 Proof. exists rw_rnd, rw_Utm, rw_UtU, rw_x0, rw_tol. exact active_set_rounding_witness. Qed.
-Print Assumptions C13_active_set_rounding_refuted.
